@@ -6,6 +6,7 @@ anchor is an analysis error.
 from __future__ import annotations
 
 import ast
+import re
 from typing import Any, Optional
 
 from ..model import AnalysisError, ClassInfo, External, FuncInfo, Program, norm, stmts_no_doc, walk_no_nested
@@ -1590,3 +1591,105 @@ def rule_iter_once(ctx: RuleContext, p: Program, rid: str) -> None:
                       note=f'{sorted(lazy)} consumed at most once', nontrivial=False)
     if n < 15:
         raise AnalysisError(f'ITER-ONCE: only {n} functions with an Iterable parameter found')
+
+
+# ====================================================================== CUSTOM-SEM (C02 / C09, added in round 7)
+def rule_custom_sem(ctx: RuleContext, p: Program, rid: str) -> None:
+    import datetime
+    import decimal
+    from . import possem
+    from .tokenstore import TS
+    ctx.rule(rid, 'the three converters behind Custom.values (_update_raw, _unsimplify_value, _simplify_value), interpreted with Python\'s own '
+                  'class-pattern semantics (a bool IS an int, a datetime IS a date) over every pair (kind of the raw value in the slot) x (value '
+                  'assigned: str, date, True, False, Decimal -- and int when the declared value type admits it -- or a preserved model): after '
+                  '`values[i] = v` -- update in place if _update_raw accepts, else replace by _unsimplify_value(v) -- the slot reads back '
+                  'exactly v, of exactly v\'s type, held by the token class of that type (a bool in a BOOL, never in a NUMBER)')
+    m = p.module('models.custom')
+    fns = {f.qualname: f for f in p.functions_in(m) if f.parent is None and f.cls is None}
+    for need in ('_update_raw', '_unsimplify_value', '_simplify_value'):
+        if need not in fns:
+            raise AnalysisError(f'CUSTOM-SEM: models.custom.{need} vanished')
+    ts = TS(p)
+    kinds = {'EscapedString': str, 'Date': datetime.date, 'Bool': bool, 'NumberExpr': decimal.Decimal}
+    union_txt = next((norm(st.value) for st in m.tree.body if isinstance(st, ast.Assign) and norm(st.targets[0]) == '_ValueTypeSimplified'), '')
+    admits_int = bool(re.search(r'(^|[^.\w])int\b', union_txt))
+
+    class Interp(possem.PosInterp):
+        tag = 'CUSTOM-SEM'
+
+        def instance_of(self, v: Any, cls_expr: Any, env: dict) -> bool:          # type: ignore[override]
+            name = norm(cls_expr).rsplit('.', 1)[-1]
+            py = {'str': str, 'int': int, 'bool': bool, 'float': float, 'date': datetime.date, 'datetime': datetime.datetime, 'Decimal': decimal.Decimal}
+            if name in py:
+                return isinstance(v, py[name])                 # Python's semantics: isinstance(True, int), isinstance(datetime, date)
+            return isinstance(v, possem.Obj) and v.cls == name
+
+        def expr(self, e: Any, env: dict) -> Any:                 # type: ignore[override]
+            if isinstance(e, ast.Call) and isinstance(e.func, ast.Attribute) and e.func.attr == 'from_value' and isinstance(e.func.value, ast.Name) \
+                    and e.func.value.id not in env:
+                return possem.Obj(e.func.value.id, {'value': self.expr(e.args[0], env), 'fresh': True}, f'new {e.func.value.id}')
+            if isinstance(e, ast.Call) and norm(e.func) in ('decimal.Decimal', 'Decimal') and len(e.args) == 1:
+                v = self.expr(e.args[0], env)
+                if isinstance(v, (int, str, decimal.Decimal)):
+                    return decimal.Decimal(v)
+            if isinstance(e, ast.Call) and norm(e.func) == 'isinstance' and len(e.args) == 2:
+                v = self.expr(e.args[0], env)
+                alts: list = []
+
+                def fl(x: ast.AST) -> None:
+                    if isinstance(x, ast.BinOp) and isinstance(x.op, ast.BitOr):
+                        fl(x.left)
+                        fl(x.right)
+                    elif isinstance(x, ast.Tuple):
+                        for y in x.elts:
+                            fl(y)
+                    else:
+                        alts.append(x)
+                fl(e.args[1])
+                return any(self.instance_of(v, a, env) for a in alts)
+            return super().expr(e, env)
+
+    def raw_of(kind: str) -> Any:
+        sample = {'EscapedString': 'old', 'Date': datetime.date(2000, 1, 1), 'Bool': True, 'NumberExpr': decimal.Decimal(7)}
+        if kind in sample:
+            return possem.Obj(kind, {'value': sample[kind]}, f'old {kind}')
+        return possem.Obj(kind, {}, f'old {kind}')
+
+    values: list[Any] = ['text', '', datetime.date(2020, 1, 2), True, False, decimal.Decimal('2.50'), decimal.Decimal(0), decimal.Decimal(1)]
+    if admits_int:
+        values += [3, 0, 1]
+    values += [possem.Obj('Account', {}, 'an account token'), possem.Obj('Amount', {}, 'an amount')]
+    want_kind = {str: 'EscapedString', datetime.date: 'Date', bool: 'Bool', decimal.Decimal: 'NumberExpr', int: 'NumberExpr'}
+    problem = None
+    n = 0
+    for rk in [*kinds, 'Account', 'Amount']:
+        for v in values:
+            raw = raw_of(rk)
+            n += 1
+            show = f'slot holds a{"n" if rk[0] in "AE" else ""} {rk}, assigned {v!r}'
+            try:
+                upd = Interp(ts, [], module=m).call_function(fns['_update_raw'], [raw, v], {})
+                final = raw if upd is True else Interp(ts, [], module=m).call_function(fns['_unsimplify_value'], [v], {})
+                back = Interp(ts, [], module=m).call_function(fns['_simplify_value'], [final], {})
+            except possem.Raised as ex:
+                problem = problem or f'{show}: raises {ex}'
+                continue
+            if upd not in (True, False):
+                problem = problem or f'{show}: _update_raw returns {upd!r}'
+                continue
+            if isinstance(v, possem.Obj):
+                ok = final is v and back is v
+                why = 'a preserved model is stored and read back as it is'
+            else:
+                k = want_kind[type(v)]
+                ok = isinstance(final, possem.Obj) and final.cls == k and type(back) is type(final.f.get('value')) and back == v \
+                    and (type(back) is type(v) or (type(v) is int and isinstance(back, decimal.Decimal)))
+                why = f'a {type(v).__name__} belongs in a {k} and reads back as {v!r}'
+            if not ok and problem is None:
+                held = f'{final.cls} holding {final.f.get("value")!r}' if isinstance(final, possem.Obj) else repr(final)
+                problem = (f'{show}: {"updated in place" if upd else "replaced"}; the slot then is a {held} and reads back {back!r} -- {why} '
+                           f'(bool is a subclass of int and datetime of date: a class pattern or isinstance for the base class also takes the subclass)')
+    if n < 40:
+        raise AnalysisError(f'CUSTOM-SEM: only {n} pairs evaluated')
+    ctx.check(problem is None, rid, 'models.custom:_update_raw / _unsimplify_value / _simplify_value', 'set then get, type-exact', problem or '',
+              fns['_update_raw'].where, note=f'{n} (slot kind, value) pairs')
